@@ -482,7 +482,21 @@ func (c *Ctx) dispatchRule(r *rule, name string, requiredAtom string) {
 					}
 					sl := c.newSlicer()
 					sl.depth = 0
-					res := sl.run(s2.Common().Args...)
+					// (only the arguments that can carry task names: strings and string slices)
+					var nameArgs []ssa.Value
+					for _, a := range s2.Common().Args {
+						switch t := a.Type().Underlying().(type) {
+						case *types.Basic:
+							if t.Info()&types.IsString != 0 {
+								nameArgs = append(nameArgs, a)
+							}
+						case *types.Slice:
+							if b, ok := t.Elem().Underlying().(*types.Basic); ok && b.Info()&types.IsString != 0 {
+								nameArgs = append(nameArgs, a)
+							}
+						}
+					}
+					res := sl.run(nameArgs...)
 					names := []string{}
 					for _, cst := range res.consts {
 						if s, ok := constString(cst); ok {
